@@ -97,6 +97,8 @@ def check(run, project):
     r4(run, roles)
     r5(run, project)
     r8(run, project)
+    from .shared import discarded_generators
+    discarded_generators(run, project, "R9")
     r6(run, project)
     r7(run, project)
     run.floor("R1", 20, "region obligations")
